@@ -148,6 +148,46 @@ func runE2E(c e2e.Case) (ev.Info, error) {
 				}
 			}
 		}
+		// bindings of one group share one Group execution for their Synchronization: decidable when the first two
+		// bindings form the group (declared next to each other, both with executeHookOnSynchronization), nothing changed
+		// in the cluster during start-up and no schedule binding is in the group - then every Group execution of the
+		// start-up phase is a Synchronization one
+		if !h.V0 && len(h.Kube) >= 2 && h.Kube[0].Group != "" && h.Kube[0].Group == h.Kube[1].Group && h.Kube[0].OnSync && h.Kube[1].OnSync && len(c.Early) == 0 {
+			g := h.Kube[0].Group
+			decidable := true
+			for i, kb := range h.Kube {
+				if i >= 2 && kb.Group == g {
+					decidable = false
+				}
+			}
+			for _, sb := range h.Sched {
+				if sb.Group == g {
+					decidable = false
+				}
+			}
+			if decidable {
+				n := 0
+				seenExec := map[*e2e.Exec]bool{}
+				for i, ex := range tr.Execs {
+					if i >= tr.StartupExecs {
+						break
+					}
+					if ex.Hook != h.Name || ex.Exit != 0 {
+						continue
+					}
+					for _, cx := range ex.Contexts {
+						if cx["type"] == "Group" && cx["groupName"] == g && !seenExec[&tr.Execs[i]] {
+							seenExec[&tr.Execs[i]] = true
+							n++
+						}
+					}
+				}
+				if n != 1 {
+					return info, fmt.Errorf("hook %s group %s: the Synchronization of its two bindings (%s in queue %q, %s in queue %q) was delivered in %d successful Group executions during start-up, bindings of one group share one", h.Name, g, h.Kube[0].Name, h.Kube[0].Queue, h.Kube[1].Name, h.Kube[1].Queue, n)
+				}
+				info.Labels = append(info.Labels, "group-synchronization-counted")
+			}
+		}
 		// schedules of the hook start only after its Synchronizations
 		for _, r := range ctxs {
 			if r.Ctx["type"] == "Schedule" && r.Exec.Start < lastSyncEnd {
